@@ -28,15 +28,17 @@ type ClientOpts struct {
 
 // SrvStream is what a scripted server received on one stream.
 type SrvStream struct {
-	ID        uint32
-	Fields    [][2]string
-	Blocks    int
-	Data      []byte
-	DataSizes []int
-	EndStream int
-	Rst       []uint32
-	AfterEnd  int
-	HdrEvent  int
+	ID          uint32
+	Fields      [][2]string
+	RawBlock    []byte
+	BlockFrames []int
+	Blocks      int
+	Data        []byte
+	DataSizes   []int
+	EndStream   int
+	Rst         []uint32
+	AfterEnd    int
+	HdrEvent    int
 }
 
 // SrvConn is the scripted server's side of one connection the client dialed.
@@ -363,6 +365,7 @@ func (h *Client) collect() {
 					s.HdrEvent = h.Events
 				}
 				sc.curBlock, sc.blockBuf, sc.blockES = f.Stream, append([]byte{}, sem.Body...), sem.EndStream
+				s.BlockFrames = append(s.BlockFrames, len(f.Payload))
 				if sem.EndHeaders {
 					sc.finishBlock()
 				}
@@ -372,6 +375,7 @@ func (h *Client) collect() {
 					continue
 				}
 				sc.blockBuf = append(sc.blockBuf, sem.Body...)
+				sc.stream(f.Stream).BlockFrames = append(sc.stream(f.Stream).BlockFrames, len(f.Payload))
 				if sem.EndHeaders {
 					sc.finishBlock()
 				}
@@ -392,6 +396,7 @@ func (h *Client) collect() {
 
 func (sc *SrvConn) finishBlock() {
 	s := sc.stream(sc.curBlock)
+	s.RawBlock = append([]byte{}, sc.blockBuf...)
 	fields, err := sc.dec.DecodeFull(sc.blockBuf)
 	if err != nil && sc.HpackErr == "" {
 		sc.HpackErr = fmt.Sprintf("request header block on stream %d does not decode: %v (%x)", sc.curBlock, err, sc.blockBuf)
